@@ -629,6 +629,10 @@ pub fn item_strategy(table_len: usize) -> BoxedStrategy<Item> {
             .prop_map(|(id, placement, error, extra_keys)| Item::KittyImage { id, placement, error, extra_keys }),
         1 => ((coord(), coord()), (coord(), coord())).prop_map(|(cells, pixels)| Item::SizePair { cells, pixels }),
         2 => proptest::collection::vec(prop_oneof![4 => text_char(), 1 => Just('\n'), 1 => Just('\t'), 1 => Just('\u{7}')], 0..12).prop_map(|v| Item::Paste(v.into_iter().collect())),
+        // one sequence longer than any plausible internal buffer (1 KiB, 4 KiB)
+        1 => (prop_oneof![Just(1000usize), 1020usize..1030, 2000usize..5000], "[ -~]{1,7}").prop_map(|(n, unit)| {
+            Item::Paste(unit.chars().cycle().take(n).collect())
+        }),
         2 => ("[0-9;]{0,6}", proptest::sample::select(vec!['\u{e9}', '\u{416}', '\u{4e16}', '\u{1f929}', '\u{80}', '\u{10ffff}']))
             .prop_map(|(params, killer)| Item::CsiAbandoned { params, killer }),
     ]
